@@ -6,7 +6,7 @@ from ..link import run_e3, gen_events
 ID = "C11"
 LEVEL = "exploration"
 ENGINE = "E3"
-QUICK_RUNS = 24000
+QUICK_RUNS = 20000
 THOROUGH_RUNS = 3000000
 QUICK_WALL = 100
 THOROUGH_WALL = 900
